@@ -69,6 +69,23 @@ func r12e(c *core.Ctx) {
 			continue
 		}
 		c.Check(strings.Contains(core.Expr(ret.Results[0]), ".Additionals["), "returns-found", ret.Pos(), fn, "the removed record is returned", core.Expr(ret.Results[0]))
+		// the record returned is the one read from the slot that is overwritten (the scanned index), and it is the one
+		// whose type was tested
+		slot := copyStore.Addr.(*ssa.IndexAddr).Index
+		ld, isLd := ret.Results[0].(*ssa.UnOp)
+		var from *ssa.IndexAddr
+		if isLd && ld.Op == token.MUL {
+			from, _ = ld.X.(*ssa.IndexAddr)
+		}
+		have := core.Expr(ret.Results[0])
+		c.Check(from != nil && from.Index == slot, "returns-scanned-slot", ret.Pos(), fn, "the record returned is the one read from the slot that is overwritten by the swap (the scanned index, not a fixed position)", have)
+		tested := false
+		for _, call := range core.Calls(fn) {
+			if call.Common().IsInvoke() && call.Common().Method.Name() == "Hdr" && call.Common().Value == ret.Results[0] {
+				tested = true
+			}
+		}
+		c.Check(tested, "tests-scanned-record", ret.Pos(), fn, "the record whose type is compared with OPT is the record at the scanned index (the one removed and returned)", have)
 	}
 }
 
